@@ -42,18 +42,9 @@ def stub_table(src, cls_suffix):
     return table
 
 
-def body(chk: core.Check):
-    _client.common(chk)
-    quick = chk.tier == "quick"
-    timeout = 240 if quick else 1200
-    chk.bound("rpc_forms", "unary, void, server/client/bidi streaming, cross-package request (Empty, "
-              "GetOperationRequest), keyword-named RPC (Import), transport-unsafe name (CreateChannel), paged, LRO")
-    chk.bound("crosshair_per_condition_timeout_s", timeout)
-    chk.outside += ["wire bytes, channel, streaming arity on the wire (grpc C core)"]
-    g = _client.render(chk)
-    hm = ch.load_module(_client.HARNESS, {"VERIF_EMITTED": g.outdir})
-    _client.encode_sources(chk, g, ["get_book", "delete_book", "stream_books", "upload", "chat", "import_",
-                                    "create_channel", "ping", "check_operation", "list_books", "write_book"])
+def table_diff(g):
+    """-> (oks, mismatches{key: text}, tables) for the emitted gRPC stub tables of the rendered API"""
+    oks, bad = [], {}
     # ---- concrete table diff -------------------------------------------------------------
     fdp = apis.client_api()[0].f
     svc = fdp.service[0]
@@ -86,14 +77,33 @@ def body(chk: core.Check):
                       and got[2].endswith(exp_ser) and got[3].endswith(exp_des))
                 key = f"stub:{tname}.{attr}"
                 if ok:
-                    chk.ok("stub-table (concrete diff)", key)
+                    oks.append(key)
                 else:
-                    chk.violation(key, f"{which}.{cm} dispatches to transport.{attr}; emitted stub {got} != "
-                                  f"({arity}, {path}, ...{exp_ser}, ...{exp_des})",
-                                  {"kind": "stub-table", "rpc": m.name})
+                    bad[key] = (f"{which}.{cm} dispatches to transport.{attr}; emitted stub {got} != "
+                                f"({arity}, {path}, ...{exp_ser}, ...{exp_des})")
             if not re.search(rf"self\.{attr}: (?:self\._wrap_method|gapic_v1\.method(?:_async)?\.wrap_method)\(\s*self\.{attr},", base_src) \
                     and which == "client":
-                chk.violation(f"base-wrap:{attr}", f"base transport does not wrap self.{attr}", {"kind": "base-wrap"})
+                bad[f"base-wrap:{attr}"] = f"base transport does not wrap self.{attr}"
+    return oks, bad, tables
+
+
+def body(chk: core.Check):
+    _client.common(chk)
+    quick = chk.tier == "quick"
+    timeout = 240 if quick else 1200
+    chk.bound("rpc_forms", "unary, void, server/client/bidi streaming, cross-package request (Empty, "
+              "GetOperationRequest), keyword-named RPC (Import), transport-unsafe name (CreateChannel), paged, LRO")
+    chk.bound("crosshair_per_condition_timeout_s", timeout)
+    chk.outside += ["wire bytes, channel, streaming arity on the wire (grpc C core)"]
+    g = _client.render(chk)
+    hm = ch.load_module(_client.HARNESS, {"VERIF_EMITTED": g.outdir})
+    _client.encode_sources(chk, g, ["get_book", "delete_book", "stream_books", "upload", "chat", "import_",
+                                    "create_channel", "ping", "check_operation", "list_books", "write_book"])
+    oks, bad, tables = table_diff(g)
+    for k in oks:
+        chk.ok("stub-table (concrete diff)", k)
+    for k, text in bad.items():
+        chk.violation(k, text, {"kind": "stub-table", "diff_key": k})
     chk.sample({"stub_table_grpc": {k: v[:2] for k, v in list(tables["grpc"].items())[:4]}})
     # ---- solver part ----------------------------------------------------------------------
     _client.run_funcs(
@@ -103,9 +113,11 @@ def body(chk: core.Check):
 
 
 def replay(chk, data):
-    if data.get("kind") in ("stub-table", "base-wrap"):
-        c = core.Check.__new__(core.Check)
-        return data["text"]  # concrete diff: re-run the check to re-evaluate
+    if data.get("kind") == "stub-table":
+        from lib import gen
+        g = gen.generate(apis.client_api(), parameter="transport=grpc+rest", service_yaml=apis.CLIENT_SERVICE_YAML)
+        _oks, bad, _t = table_diff(g)
+        return bad.get(data["diff_key"])
     return _client.replay(chk, data)
 
 
